@@ -243,22 +243,23 @@ def r5_archive(ctx):
                     ranks["o:e%d" % i] = i
                 for j in range(npop):
                     ranks["o:p%d" % j] = 10 + j
-                arch_home = 10000
-                popsym = Sym("populations")
+                # real population stack (another population underneath) + the archive as a cell of the typed store
+                import statemodel
+                from c04 import StackModel
+                from collmodel import install as _install
+                POP_ = "mahf::state::common::Populations"
+                sf_ = F.field_index(POP_, "stack")
+                popsym = Sym("populations", {sf_: Sym("stack")})
+                store = statemodel.Store(F, levels=1, auto=statemodel.by_prefix(F, {ARCH: Vec("arch")}))
 
-                def oracle(interp, env, f, args, t, bb, path):
-                    k = f.get("key", "")
-                    ga = f.get("gargs") or [""]
-                    if k in ("mahf::state::registry::StateRegistry::borrow", "mahf::state::registry::StateRegistry::borrow_mut") and ga[0].startswith(ARCH):
-                        return Ref(arch_home, [], frame="root")
-                    if k in ("mahf::state::State::populations_mut", "mahf::state::State::populations"):
+                def oracle(interp, env, f, args, t, bb, path, popsym=popsym):
+                    if f.get("key", "") in ("mahf::state::State::populations_mut", "mahf::state::State::populations"):
                         return popsym
-                    if k in ("mahf::state::common::Populations::current_mut", "mahf::state::common::Populations::current"):
-                        return Vec("pop")
                     return TOP
-                it = Interp(comp.body, chain(oracle, coll_oracle, std_oracle), [Sym("self"), Sym("problem"), Sym("state")], facts=F, inline=INLINE)
-                it.extra_env = {arch_home: Agg("adt", ARCH, "ElitistArchive", [Vec("arch")])}
-                it.init_state = {"rank": ranks, "heap": {"arch": tuple(elit), "pop": tuple(pop)}, "next_vec": 0}
+                it = _install(Interp(comp.body, chain(oracle, statemodel.well_known(popsym, Sym("rng")), store, StackModel(sf_), coll_oracle, std_oracle), [Sym("self"), Sym("problem"), Sym("state")], facts=F,
+                                     inline=lambda k_: INLINE(k_) or k_.startswith(POP_ + "::") or statemodel.inline(k_)))
+                it.init_state = {"rank": ranks, "heap": {"arch": tuple(elit), "pop": tuple(pop), "below": (ind("below"),)}, "next_vec": 0, "stack": (Vec("below"), Vec("pop"))}
+                store.install(it)
                 m += 1
                 for p in it.run():
                     if p.end != "return":
